@@ -9,7 +9,9 @@
        dependency.cpp; closed by reflection over the reachable set) + c05_vertex_once / c05_vertex_only_after_deps /
        c05_vertex_invoked_when_all (GraphVertex count-down for ANY number of dependencies, induction).
    * "terminates with the closure finished ... wait() returns only after every started vertex has finished":
-       c05_closure_counters (ClosureContext counters, every event sequence).
+       c05_closure_counters (ClosureContext counters, every event sequence); c05_bind_finish (machine H: the two steps of
+       GraphData::bind per requested target against concurrent releasers of the targets, any number of targets, every
+       schedule: finished with success only when run() has fired and every requested target is sealed).
    * "on success every target holds the value a sequential demand-driven evaluation would produce", "vertices not
      needed by the targets do not run", "each data is published once": c05_value_eq_sequential, c05_inputs_eq_sequential,
      c05_only_needed, c05_data_once over the event-level engine ENG, for every graph in topological order, every
@@ -259,3 +261,16 @@ Example c05_publish_example :
   let s := prun pinit [PNew 0; PMove 0; PWrite 1 5; PNew 1; PAssign 2 1; PWrite 2 7; PDtor 0; PDtor 1; PDtor 2]%nat in
   dpub (cells s 0%nat) = 1%nat /\ dpubval (cells s 0%nat) = Some 7 /\ dpub (cells s 1%nat) = 1%nat /\ dpubval (cells s 1%nat) = None.
 Proof. exact af_publish_example. Qed.
+
+(* ---- H. Graph::run binding n requested targets (the two steps of GraphData::bind in the order regenerated from the
+   source, then fire()) against n independent releasers of those targets (producers or external injectors), every
+   schedule: the closure is never marked finished early, and when it is finished with success run() has fired and every
+   requested target is sealed.  Depends on count-before-attach (bind_counts_before_attach = 1). ---- *)
+Theorem c05_bind_finish : forall n s, BReach n s ->
+  bearly s = false /\ (forall c, bfin s = Some c -> c = 0 /\ bfired s = true /\ all_sealed (btargets s) = true).
+Proof. exact af_bind_finish. Qed.
+Print Assumptions c05_bind_finish.
+
+Example c05_bind_example :
+  let s := run bst bstep (binit 2) [0;0;1;1;0;0;2;2;0]%nat in bfin s = Some 0 /\ bfired s = true /\ all_sealed (btargets s) = true.
+Proof. exact af_bind_example. Qed.
